@@ -1,4 +1,5 @@
 import MxModel.Kernels.IOSpec
+import MxModel.Kernels.IOKeys
 import MxModel.Generated.Tables
 /-! Line-protocol driver for the IOSpec model (C18).
 
@@ -8,7 +9,13 @@ import MxModel.Generated.Tables
 
 `S = 0` is the model itself; `SHEET = -` is `None`; `VAL` is `d<i>` (pandas), `p<i>` (other
 object) or `i<i>` (Interface).  Every operation answers `ok` or `err <kind>`, followed by
-` trig=<names>` when the state before the operation meets one of the trigger predicates. -/
+` trig=<names>` when the state before the operation meets one of the trigger predicates.
+
+The registry of file objects (`Kernels/IOKeys.lean`, relative AND absolute paths) has its own state
+and its own commands on the same layer:
+
+    kclaim M PATH → `existing ID` | `created ID`      kmove ID PATH → `ok` | `refused` | `noSuchIo`
+    kdrop ID → `ok`      kobs → the keys `G:PATH#ID` in registry order (`G` = `-` for the session-wide group) -/
 namespace Driver.IOSpec
 open MxModel.IOSpec
 
@@ -68,9 +75,7 @@ def trigNames (st : St) (op : Op) : List String :=
   (if trigCellsName st op then ["cells-name"] else []) ++
   (if trigDoubleSpec st op then ["double-spec"] else []) ++
   (if trigDirtyDelete st op then ["del-space"] else []) ++
-  (if trigUpdateOnto st op then ["update-onto-referenced"] else []) ++
-  (if trigClosedNew st op then ["closed-model-new-spec"] else []) ++
-  (if trigPathAlias st op then ["path-alias"] else [])
+  (if trigUpdateOnto st op then ["update-onto-referenced"] else [])
 
 def parseOp (toks : List String) : Option Op :=
   match toks with
@@ -88,6 +93,28 @@ def parseOp (toks : List String) : Option Op :=
   | ["close", m] => m.toNat?.map .close
   | _ => none
 
+def showAns : MxModel.IOKeys.Ans → String
+  | .existing i => s!"existing {i}"
+  | .created i => s!"created {i}"
+  | .ok => "ok"
+  | .refused => "refused"
+  | .noSuchIo => "noSuchIo"
+
+def showKey (io : MxModel.IOKeys.Io) : String :=
+  (match io.group with | some g => toString g | none => "-") ++ ":" ++ io.path ++ "#" ++ toString io.id
+
+/-- the commands of the registry of file objects -/
+def keyLine (ks : MxModel.IOKeys.St) (toks : List String) : Option (MxModel.IOKeys.St × String) :=
+  match toks with
+  | ["kclaim", m, path] => m.toNat?.map (fun m =>
+      let r := MxModel.IOKeys.stepR ks (.claim m path); (r.1, showAns r.2))
+  | ["kmove", i, path] => i.toNat?.map (fun i =>
+      let r := MxModel.IOKeys.stepR ks (.move i path); (r.1, showAns r.2))
+  | ["kdrop", i] => i.toNat?.map (fun i =>
+      let r := MxModel.IOKeys.stepR ks (.drop i); (r.1, showAns r.2))
+  | ["kobs"] => some (ks, " ".intercalate (ks.ios.map showKey))
+  | _ => none
+
 def stepLine (st : St) (line : String) : St × String :=
   match (line.splitOn " ").filter (· ≠ "") with
   | ["reset"] => ({}, "ok")
@@ -102,14 +129,20 @@ def stepLine (st : St) (line : String) : St × String :=
       | (st', .ok ()) => (st', "ok" ++ suffix)
       | (st', .error e) => (st', "err " ++ showRej e ++ suffix)
 
-partial def loop (h : IO.FS.Stream) (out : IO.FS.Stream) (st : St) : IO Unit := do
+partial def loop (h : IO.FS.Stream) (out : IO.FS.Stream) (st : St) (ks : MxModel.IOKeys.St) : IO Unit := do
   let line ← h.getLine
   if line.isEmpty then return ()
-  let (st', o) := stepLine st (line.trimAscii.toString)
-  out.putStrLn o
-  loop h out st'
+  let toks := (line.trimAscii.toString.splitOn " ").filter (· ≠ "")
+  match keyLine ks toks with
+  | some (ks', o) =>
+    out.putStrLn o
+    loop h out st ks'
+  | none =>
+    let (st', o) := stepLine st (line.trimAscii.toString)
+    out.putStrLn o
+    loop h out st' (if toks = ["reset"] then {} else ks)
 
 def main : IO Unit := do
-  loop (← IO.getStdin) (← IO.getStdout) {}
+  loop (← IO.getStdin) (← IO.getStdout) {} {}
 
 end Driver.IOSpec
